@@ -108,6 +108,12 @@ func init() {
 		for _, id := range strsOf(o["keys"]) {
 			keys[id] = execKey(id).pk
 		}
+		if o["nilkeys"] != nil {
+			// ids the server's table lists without a key (a lookup that came back empty)
+			for _, id := range strsOf(o["nilkeys"]) {
+				keys[id] = nil
+			}
+		}
 		req := gabi.KeyshareResponseRequest[string]{
 			Context: unhx(o["context"]), Nonce: unhx(o["nonce"]), UserResponse: unhx(o["resp"]),
 			IsSignatureSession: o.boolean("issig"), UserChallengeInput: ksInputsOf(o["inputs"]),
@@ -370,6 +376,14 @@ func genC14(g *Rng, tier string, emit func(Op)) {
 		// the server does not know the key
 		if len(partIDs) > 1 {
 			emit(ksOp(partIDs[1:], kssSecret, kssRand, hw, context, nonce, respReq.UserResponse, issig, in, "server-lacks-key", ksLacksLabel(in, partIDs[1:], honest)))
+		}
+		// the server's table lists the key id without a key: the same as not knowing it
+		if len(partIDs) >= 1 {
+			rest := partIDs[1:]
+			o := ksOp(rest, kssSecret, kssRand, hw, context, nonce, respReq.UserResponse, issig, in, "server-has-empty-key-entry", ksLacksLabel(in, rest, honest))
+			o["nilkeys"] = []any{partIDs[0]}
+			o["fkey"] = "C14/empty-key-entry"
+			emit(o)
 		}
 		// other nonce / session kind: the server computes another challenge (no error demanded,
 		// but the challenge must differ from the user's)
